@@ -12,10 +12,10 @@ namespace OZ.Drv
 
 structure Machine where
   σ : Type
-  init : σ
+  init : String → σ      -- from the `# label` line of the sequence
   op : σ → String → σ × String
   μ : Type
-  minit : μ
+  minit : String → μ
   mon : μ → String → String → μ × Option String
 
 def words (s : String) : List String := (s.splitOn " ").filter (· ≠ "")
@@ -47,7 +47,8 @@ partial def loop (m : Machine) (h : IO.FS.Stream) (out : IO.FS.Stream)
   let line := (raw.trimAsciiEnd).toString
   let lineNo := lineNo + 1
   if line.startsWith "# " ∨ line = "#" then
-    loop m h out m.init m.minit "" lineNo ops fails
+    let label := (line.drop 2).toString
+    loop m h out (m.init label) (m.minit label) "" lineNo ops fails
   else if line.startsWith "> " then
     let o := (line.drop 2).toString
     let (s', obs) := m.op s o
@@ -67,6 +68,6 @@ partial def loop (m : Machine) (h : IO.FS.Stream) (out : IO.FS.Stream)
 def run (m : Machine) : IO Unit := do
   let stdin ← IO.getStdin
   let stdout ← IO.getStdout
-  loop m stdin stdout m.init m.minit "" 0 0 0
+  loop m stdin stdout (m.init "") (m.minit "") "" 0 0 0
 
 end OZ.Drv
